@@ -394,6 +394,21 @@ long World::on_writev(KFd &k, const struct iovec *iov, int cnt) {
 	size_t m = total;
 	if (cl.space > 0 && (size_t)cl.space < m) m = (size_t)cl.space;
 	if (cl.wcap && m > cl.wcap) m = cl.wcap;
+	if (cl.wboundary && cnt >= 2 && total > 1) {
+		// a kernel that accepts a gathered write exactly up to a buffer boundary, or as many bytes as one of the parts is long: the amounts a
+		// bookkeeping slip is most likely to mistake for "everything went out"
+		Rng br(mix64(mix64(plan.seed, 0xB0DA), ((uint64_t)cl.idx << 32) + cl.wcount++));
+		size_t first = iov[0].iov_len, c = 0;
+		switch (br.below(6)) {
+		case 0: c = first; break;                         // exactly the first buffer (the parked bytes, when there are any)
+		case 1: c = total - first; break;                 // as many bytes as everything behind the first buffer is long
+		case 2: c = first + iov[1].iov_len; break;         // first two buffers
+		case 3: c = first > 1 ? first - 1 : 1; break;
+		case 4: c = first + 1; break;
+		default: c = total - 1; break;
+		}
+		if (c >= 1 && c < total && c < m) { m = c; probe("fault:write_accepted_to_a_boundary"); }
+	}
 	if (m < total) { probe("fault:short_write"); cl.blocked = true; }
 	std::string acc; acc.reserve(m);
 	size_t left = m;
